@@ -5665,6 +5665,9 @@ class Scen:
                    else [self.series])
         for i in indices:
             self.ambset.sup_constr[i] = tuple(args)
+        self.ambset.update = True
+        self.ambset.model.pupdate = True
+        self.ambset.model.dupdate = True
 
     def exptset(self, *args):
         """
@@ -5694,6 +5697,9 @@ class Scen:
                                  'expectation sets.')
 
         self.ambset.exp_constr.append(tuple(args))
+        self.ambset.update = True
+        self.ambset.model.pupdate = True
+        self.ambset.model.dupdate = True
         if not isinstance(self.series, Iterable):
             indices = [self.series]
         else:
